@@ -286,10 +286,26 @@ def dump(dev, depth: int, lines: List[str]) -> None:
                 lines.append("olink state_variable.service")
             optv = lambda v: c08.tok_val(v)  # noqa: E731
             setv = lambda s: ";".join(sorted({c08.tok_val(x) for x in s})) or "~"  # noqa: E731
+            # the lazily computed attributes are read in a generated ORDER, each twice (the order is a function of
+            # the description, so a replay reproduces it); every read must give the declared value
+            readers = {"min": (lambda: sv.min_value, optv), "max": (lambda: sv.max_value, optv),
+                       "allowed": (lambda: sv.allowed_values, setv), "default": (lambda: sv.default_value, optv),
+                       "normalized": (lambda: sv.normalized_allowed_values, lambda s_: "n")}
+            import random
+            import zlib
+            order_rng = random.Random(zlib.crc32(("\n".join(lines[:40]) + sv.name + str(len(lines))).encode("utf-8", "surrogatepass")))
+            order = list(readers) * 2
+            order_rng.shuffle(order)
+            got: Dict[str, str] = {}
+            for name_ in order:
+                fn, conv = readers[name_]
+                t = attr_tok(fn, conv)
+                if name_ in got and got[name_] != t:
+                    t = "x:unstable"                       # two reads of one attribute disagree
+                got[name_] = t
             lines.append("ovar {} {} {} {} {} {} {}".format(
                 tok_str(sv.name), tok_str(sv.data_type), 1 if sv.send_events else 0,
-                attr_tok(lambda: sv.min_value, optv), attr_tok(lambda: sv.max_value, optv),
-                attr_tok(lambda: sv.allowed_values, setv), attr_tok(lambda: sv.default_value, optv)))
+                got["min"], got["max"], got["allowed"], got["default"]))
         for act in svc.actions.values():
             args = list(act.arguments)
 
